@@ -98,7 +98,9 @@ BOUNDS = {
              "argument, over sampling given at construction / trimming (3,3) and (1,1) / PSF 3x3, 1x1 and None / simulator with and without PSF "
              "and Poisson noise / S/N-limited noise map with and without noise_limit_mask): 4 named masks, concrete dyadic data and noise values. "
              "Overlay image mesh: 2x2 on 2 named masks with |o|,|o+d| <= 1 (0.75) pixel per axis; 3x3, 1x1, 1x3, 3x1, 2x3 on 5 named masks and "
-             "2x2 on all 2x3 masks with unbounded origin. Shared option objects: on 3 named masks + all 2x2 masks ONE OverSamplingUniform (sub 2/3 and "
+             "2x2 on all 2x3 masks with unbounded origin. Border relocation (BorderRelocator.relocated_grid_from / relocated_mesh_grid_from of the "
+             "over-sampled grid stretched by 1 / 1.25 / 1.5 / 2 about the origin and of 1 / 3 / 9 origin-relative mesh points) on full3x3, single5x4, "
+             "row3x7 and all 2x2 masks with |o|,|o+d| <= 8 pixels (thorough: 7 more named masks, all 2x3 masks). Shared option objects: on 3 named masks + all 2x2 masks ONE OverSamplingUniform (sub 2/3 and "
              "1) / OverSamplingIterate / OverSamplingDataset (explicit and default) / Overlay / mesh.Rectangular / mesh.Delaunay / reg.Constant / "
              "SettingsInversion / Preloads / PSF / SimulatorImaging instance is used for the run at o and the run at o+d, in both orders.",
     "thorough": "as quick plus ALL masks of 3x3, 2x4, 4x2, 2x5, 5x2; every named mask a second time with kernel (3,5), sub size 3, pads (+1,+4); more "
@@ -120,7 +122,7 @@ OUTSIDE = [
     "pixel scales outside the dyadic set; symbolic pixel scales (non-linear terms o/s*s)",
     "masks larger than the named list / the forked shapes; kernel shapes, sub sizes (> 3), adaptive sub-size maps and pads other than the listed ones",
     "mappers: data grids other than the over-sampled pixel centres (e.g. deflected source-plane grids); Voronoi mappers (C library absent); "
-    "border relocation (C18)",
+    "border relocation of deflected (non-uniform) data grids (C18); relocation is checked here only for grids of the form origin + constant",
     "dataset pixel values are concrete (medians, Poisson draws and scipy convolution need numbers); only origins are symbolic there",
     "float64 rounding of o+d (exact reals in the solver; replay runs in float64 with 1e-7 tolerance)",
 ]
